@@ -17,6 +17,10 @@ class Check(EngineCheck):
                 "LLBuild.Refine.refinement_final", "LLBuild.Refine.EngineImpl_sound_C01",
                 "LLBuild.Refine.refinement_history_gen", "LLBuild.Refine.EngineImpl_sound_C01_gen",
                 "LLBuild.Refine.EngineImpl_sound_C01_gen_fixed", "LLBuild.Refine.EngineImpl_sound_C01_gen_bounded",
+                # stated on the concrete model's printed traces, every asynchronous schedule, histories with killed builds:
+                # a build whose trace has `R v` and no X / CY / ER returned THE clean value of the concrete external state
+                "LLBuild.Refine.EngineImpl_sound_C06_clean_value", "LLBuild.Refine.EngineImpl_sound_C06_clean_value_unique",
+                "LLBuild.Refine.EngineImpl_sound_C06_ghost_flag",
                 E + "C01_value_gen_clamp", E + "DSL.PPof_SelfStable", E + "DSL.PPof_SigCovers_forces"]
     mix = [(0.4, {}), (0.2, {"threads": True}), (0.2, {"cancel": True}), (0.2, {"reprogram": True})]
     budget = (300, 3000)
